@@ -133,7 +133,7 @@ impl Write for SimFile {
 }
 
 impl IoHook for SimDisk {
-    fn before_create(&mut self, _path: &Path) -> io::Result<()> {
+    fn before_create(&self, _path: &Path) -> io::Result<()> {
         self.yield_now();
         let k = {
             let mut st = self.state.lock().unwrap();
@@ -148,7 +148,7 @@ impl IoHook for SimDisk {
         Ok(())
     }
 
-    fn before_create_dir(&mut self, path: &Path) -> io::Result<()> {
+    fn before_create_dir(&self, path: &Path) -> io::Result<()> {
         self.yield_now();
         let k = {
             let mut st = self.state.lock().unwrap();
@@ -164,7 +164,7 @@ impl IoHook for SimDisk {
         Ok(())
     }
 
-    fn wrap(&mut self, path: &Path, _file: File) -> Box<dyn Write> {
+    fn wrap(&self, path: &Path, _file: File) -> Box<dyn Write> {
         let index = {
             let mut st = self.state.lock().unwrap();
             st.files.insert(path.to_path_buf(), Vec::new());
@@ -176,7 +176,7 @@ impl IoHook for SimDisk {
 
 /// Installs `disk` as the I/O hook of the current thread for the duration of `f`.
 pub fn with_disk<R>(disk: &SimDisk, f: impl FnOnce() -> R) -> R {
-    let prev = mahf::verif::io::install(Some(Box::new(disk.clone())));
+    let prev = mahf::verif::io::install(Some(std::rc::Rc::new(disk.clone())));
     let r = f();
     mahf::verif::io::install(prev);
     r
